@@ -2,7 +2,7 @@
    kind = property*100 + sub-model.  [run] = what the model says the implementation must
    output on this input; [mon] = the property's monitor applied to the implementation's own
    observed output. *)
-From RainV Require Import Lib Tier Geometry SectionIO Meta Paths Wire Stree AddrList Cache Tracker Announcer Picker Ram InfoDl Magnet Admission PieceDl Leech MetaSess.
+From RainV Require Import Lib Tier Geometry SectionIO Meta Paths Wire Stree AddrList Cache Tracker Announcer Picker Ram InfoDl Magnet Admission PieceDl Leech MetaSess Life.
 
 Definition run (kind : Z) (inp : list Z) : list Z :=
   match kind with
@@ -15,6 +15,7 @@ Definition run (kind : Z) (inp : list Z) : list Z :=
   | 301 => run_cached_read inp
   | 302 => run_cache inp
   | 303 => run_admission inp
+  | 401 => run_life true inp
   | 601 => run_accept inp
   | 701 => run_accept_paths inp
   | 702 => run_open_path inp
@@ -53,6 +54,7 @@ Definition mon (kind : Z) (inp obs : list Z) : bool :=
   | 301 => mon_cached_read inp obs
   | 302 => mon_cache inp obs
   | 303 => mon_admission inp obs
+  | 401 => mon_life inp obs
   | 601 => mon_accept inp obs
   | 701 => mon_accept_paths inp obs
   | 702 => mon_open_path inp obs
